@@ -283,7 +283,11 @@ def rule_dispatch(ctx, R, F):
     with astq.renaming({ic['params'][0]['id']: 'CACHE'}):
         imp = [showv(x['r']) for x in walk(ic['body']) if x['k'] == 'Assign' and show(x['l']) == 'instance.impl']
     R.eq('instance.impl', '%s:%d' % (ic['file'], ic['line']), ['CACHE->argonImpl'], imp)
-    fm = F.func('fill_memory_blocks_st') if F.has_func('fill_memory_blocks_st') else F.func('rxa2_fill_memory_blocks_st')
+    # the function that walks passes x slices x lanes and calls through instance->impl -- found by what it does, whatever it is called or inlined into
+    cands = [g_ for g_ in F.in_file('argon2_core.c') if any('callee' in c and '->impl' in show(c.get('callee')) for c in calls(g_['body']))]
+    if len(cands) != 1:
+        raise AnalysisBroken('A2-DISPATCH: expected one function of argon2_core.c that calls instance->impl, found %d' % len(cands))
+    fm = cands[0]
     loops = [x for x in walk(fm['body']) if x['k'] == 'For']
     with astq.renaming({fm['params'][0]['id']: 'INST'}), astq.nocasts():
         hdr = [showv(l['c']) for l in loops]
